@@ -28,6 +28,10 @@ type NetOpts struct {
 	// MixedWindow > 0 widens the span in which v1 and v2 transactions are both legal:
 	// RequireHeight is moved to at least AllowHeight + a drawn 1..MixedWindow.
 	MixedWindow int
+	// EphemeralNear > 0 places EphemeralOutputHeight a drawn 2..EphemeralNear blocks after AllowHeight (instead of
+	// anywhere in [0, FinalCutHeight+2]) and makes the maturity delay at least 1, so that the boundary of the
+	// ephemeral-parent comparison is crossed by short chains while v2 transactions are already allowed.
+	EphemeralNear int
 }
 
 // GenNetwork draws a network configuration with chronologically ordered fork heights
@@ -95,6 +99,12 @@ func GenNetwork(t *rapid.T, o NetOpts) (*consensus.Network, types.Block) {
 		n.HardforkV2.AllowHeight, n.HardforkV2.RequireHeight, n.HardforkV2.FinalCutHeight = 1<<30, 1<<30+10, 1<<30+20
 	}
 	n.HardforkV2.EphemeralOutputHeight = uint64(rapid.IntRange(0, int(n.HardforkV2.FinalCutHeight)+2).Draw(t, "ephemeralHeight"))
+	if o.EphemeralNear > 0 {
+		n.HardforkV2.EphemeralOutputHeight = n.HardforkV2.AllowHeight + uint64(rapid.IntRange(2, o.EphemeralNear).Draw(t, "ephemeralNear"))
+		if n.MaturityDelay == 0 {
+			n.MaturityDelay = 1
+		}
+	}
 
 	genesisTime := time.Unix(int64(rapid.IntRange(1_400_000_000, 1_700_000_000).Draw(t, "genesisTime")), 0)
 	n.HardforkOak.GenesisTimestamp = genesisTime
